@@ -401,7 +401,8 @@ Lemma follow_callback f r c fn :
   typ r = typeOperator -> callback r = true -> u_cb U (src r) = Some fn ->
   follow U (S f) r c =
     (let '(c1, a) := collect_args c (args r) [] in
-     let '(c2, n) := log_call c1 (bs "cb") (src r) a in
+     let failed := match fn (ncalls c1) a with Some _ => true | None => false end in
+     let '(c2, n) := log_call c1 (kind_of (bs "cb") failed) (src r) a in
      (c2, fn n a)).
 Proof.
   intros H H1 H2. simpl. rewrite H, H1, H2.
